@@ -4,6 +4,7 @@
 #include <string.h>
 #include <stdarg.h>
 #include <sys/stat.h>
+#include <sys/mman.h>
 #include "hx.h"
 
 const char *hx_hook_name[HK__N] = {
@@ -112,10 +113,15 @@ int hx_batch_load(const char *path, hx_batch *b) {
     struct stat st;
     if (fstat(fileno(f), &st) != 0) { fclose(f); return -1; }
     b->len = (size_t) st.st_size;
-    b->mem = malloc(b->len + 1);
-    if (fread(b->mem, 1, b->len, f) != b->len) { fclose(f); free(b->mem); return -1; }
+    /* the stream bytes handed to the library live in a mapping that is made read-only once loaded: the data functions take
+     * `const void *`, so a parser that stores into its input (even temporarily) faults instead of going unnoticed */
+    b->maplen = (b->len + 1 + 4095) & ~(size_t) 4095;
+    b->mem = mmap(NULL, b->maplen, PROT_READ | PROT_WRITE, MAP_PRIVATE | MAP_ANONYMOUS, -1, 0);
+    if (b->mem == MAP_FAILED) { b->mem = NULL; fclose(f); return -1; }
+    if (fread(b->mem, 1, b->len, f) != b->len) { fclose(f); munmap(b->mem, b->maplen); return -1; }
     fclose(f);
-    if (b->len < 4 || memcmp(b->mem, "HXB1", 4) != 0) { free(b->mem); return -2; }
+    if (b->len < 4 || memcmp(b->mem, "HXB1", 4) != 0) { munmap(b->mem, b->maplen); return -2; }
+    mprotect(b->mem, b->maplen, PROT_READ);
     size_t cap = 64;
     b->cases = malloc(cap * sizeof(hx_case));
     size_t pos = 4;
@@ -156,7 +162,7 @@ bad:
 void hx_batch_free(hx_batch *b) {
     for (size_t i = 0; i < b->ncases; i++) free(b->cases[i].ops);
     free(b->cases);
-    free(b->mem);
+    if (b->mem) munmap(b->mem, b->maplen);
     memset(b, 0, sizeof *b);
 }
 
